@@ -43,3 +43,15 @@ extern "C" int cpps_decrypt_ba(void *h, unsigned char *m, const unsigned char *c
     if (bm.size()) memcpy(m, bm.data(), bm.size());
     return (int)bm.size();
 }
+
+/* a constant byte_array shared by several threads (only ever read by the callers) */
+extern "C" void *cpps_ba_new(const unsigned char *d, size_t n) { return new ascon::byte_array(ascon::bytes_from_data(d, n)); }
+extern "C" int cpps_decrypt_shared_ba(void *h, unsigned char *m, const void *shared_ct, const unsigned char *ad, size_t adlen, int form)
+{
+    ascon::aead *o = static_cast<ascon::aead *>(h); const ascon::byte_array &c = *static_cast<const ascon::byte_array *>(shared_ct);
+    ascon::byte_array bm, bad = ascon::bytes_from_data(ad, adlen);
+    bool ok = (form == 1) ? o->decrypt(bm, c) : o->decrypt(bm, c, bad);
+    if (!ok) return -1;
+    if (bm.size()) memcpy(m, bm.data(), bm.size());
+    return (int)bm.size();
+}
